@@ -217,6 +217,7 @@ func init() {
 
 		// time
 		"time.Sleep": extYield,
+		"time.initLocal": noop,
 		"time.NewTicker": func(fr *frame, a []value) value {
 			// a ticker that never fires inside the engine (time does not pass by itself)
 			cell := zero(fr.i.namedType("time", "Ticker"))
